@@ -48,7 +48,7 @@ TEXT = {
     "C12": ("Symbolic fields laid out as LF/CRLF x final terminator present/absent (FASTA: per-line mixture); the real search "
             "path must return exactly the fields for every layout.", "one record, fields <= 2 bytes"),
     "C13": ("Relations between all accessors on records from parts under the record invariant, both formats, RefRecord and "
-            "OwnedRecord; UTF-8 text accessors id()/desc()/id_desc() of both formats on arbitrary headers of <= 2 bytes.", "buffers <= 8 (FASTA) / 10 (FASTQ) bytes, <= 2 lines; text accessors: headers <= 2 bytes, core::str::from_utf8 stubbed by an explicit validator and, for id_desc(), core's internal memchr by a byte loop"),
+            "OwnedRecord; UTF-8 text accessors id()/desc() of both formats on arbitrary headers of <= 2 bytes, id_desc() on arbitrary headers of <= 3 bytes.", "buffers <= 8 (FASTA) / 10 (FASTQ) bytes, <= 2 lines; text accessors: headers <= 2 bytes (id_desc: <= 3), core::str::from_utf8 stubbed by an explicit validator and, for id_desc(), core's internal memchr by a byte loop"),
     "C14": ("fill_buf with a fault-injecting source (any kind, any of the first 6 calls, any interrupt pattern); seek() with a "
             "failing source; FASTA resume_incomplete_search with a failing refill (error kind preserved, terminal).",
             "next()-level propagation (try_opt!) is a two-line macro not separately encoded; the FASTQ resume loop is not encoded"),
